@@ -48,6 +48,9 @@ fn split_out<C: Ciphersuite>(
 }
 
 pub fn exec<C: RandomizedCiphersuite>(op: &str, a: &A) -> Option<String> {
+    if matches!(op, "wipe" | "dropscan" | "debug" | "debugfields") {
+        return crate::secrets::exec_secrets::<C>(op, a);
+    }
     if matches!(op, "ser" | "de" | "json_ser" | "json_de" | "prim" | "resume") {
         return crate::codec_ops::exec_codec::<C>(op, a);
     }
